@@ -331,6 +331,9 @@ func (w *World) RunReturned() (bool, error) {
 type Peer struct {
 	C   *simnet.Conn
 	buf []byte
+	// Hold: the peer does not read (models a receiver that has stopped draining its socket); Recv then
+	// returns only what was taken earlier. Combine with C.SetLimit to exert back-pressure on the writer.
+	Hold bool
 }
 
 // Client connects a new scripted client to the proxy.
@@ -359,7 +362,9 @@ func (p *Peer) SendNoWait(b []byte) error {
 
 // Recv returns everything received so far (cumulative).
 func (p *Peer) Recv() []byte {
-	p.buf = append(p.buf, p.C.Take()...)
+	if !p.Hold {
+		p.buf = append(p.buf, p.C.Take()...)
+	}
 	return p.buf
 }
 
